@@ -13,4 +13,6 @@ Definition dispatch (s : sexp) : sexp :=
     of_bool (added_ok (members (js_of_sx (sx_arg 0 s))) (members (js_of_sx (sx_arg 1 s))) (members (js_of_sx (sx_arg 2 s))))
   else if t =? 2 then (* keys_ok bad output *)
     of_bool (keys_ok (map sx_str (sx_list (sx_arg 0 s))) (js_of_sx (sx_arg 1 s)))
+  else if t =? 3 then (* preserved_exact_ok input output *)
+    of_bool (preserved_exact_ok 64%nat (js_of_sx (sx_arg 0 s)) (js_of_sx (sx_arg 1 s)))
   else At (-999).
